@@ -100,8 +100,9 @@ class UnwrapScan(c10.DecoderAnalysis):
 def run(prog, tier, extra=None):
     res = Result("C11", "other")
     R1 = res.rule("C11.exhaustive", "no arm of a match on a peer-decoded Message panics unconditionally", floor=40)
-    R2 = res.rule("C11.pre-handshake", "peer key / challenge / peer lookups are not unwrapped without a dominating check", floor=6)
-    R3 = res.rule("C11.fallible-unwrapped", "results of workspace functions that can return Err are not unwrapped in handlers", floor=5)
+    RS = res.rule("C11.unwrap-sites", "unwrap/expect sites examined in the bodies reachable from the handlers", floor=150)
+    R2 = res.rule("C11.pre-handshake", "peer key / challenge / peer lookups are not unwrapped without a dominating check", floor=0)
+    R3 = res.rule("C11.fallible-unwrapped", "results of workspace functions that can return Err are not unwrapped in handlers", floor=0)
     R4 = res.rule("C11.decoders", "no decoder that can panic on input is reachable from the handlers", floor=15)
 
     core_units = [u for u in prog.units if u.crate == "saito_core"]
@@ -189,6 +190,7 @@ def run(prog, tier, extra=None):
         if key0 in seen:
             continue
         seen.add(key0)
+        res.instance(RS)     # every unwrap/expect site in the handlers' call graph is examined
         name = b.path.replace(CORE, "")
         # R2: what is the unwrapped value itself?
         pre = None
